@@ -45,6 +45,8 @@ def run(ctx):
         kinds9 = [t_ for t_ in rescorr.TABLE_KINDS if t_ != "shifted"]   # C09 is about tables with positive properties
         kind = kinds9[k % len(kinds9)]
         tb0 = rescorr.make_table(kind, rng, True)
+        if k % 6 in (4, 5) and np.all(np.diff(np.round(tb0["pressure"])) > 0):
+            tb0 = dict(tb0, pressure=np.round(tb0["pressure"]))     # whole-number pressures: an integer column holds them exactly
         p = tb0["pressure"]
         variant = k % 3          # 0 computed diffusivity, 1 user-supplied diffusivity, 2 simple-liquid class
         user_alpha = variant == 1
@@ -77,12 +79,22 @@ def run(ctx):
         j = int(rng.integers(1, len(p) - 1))
         p_i = float(p[j]) if mode == 0 else float(rng.uniform(p[1], p[-1])) if mode in (1, 2) else float(rng.choice([p[0] - 1.0, p[-1] + 1.0, p[-1] * 2]))
         container = rng.integers(0, 3)
-        arg = pd.DataFrame(tb) if container == 0 else dict(tb)
+        # dtype x row order: an unsigned (or signed 64-bit) integer pressure column, with the rows listed by decreasing pressure or
+        # shuffled - the library's lookups sort, whatever the dtype (the model is given the ascending float table)
+        rows_how = "ascending"
+        if k % 6 in (4, 5) and float(np.max(p)) < 2 ** 31 and np.all(np.asarray(p) == np.round(p)):
+            perm_r = np.arange(len(p))[::-1] if k % 12 < 6 else rng.permutation(len(p))
+            rows_how = ("descending" if k % 12 < 6 else "shuffled") + ", pressure column " + ["uint32", "uint64", "int64"][(k // 6) % 3]
+            tb_arg = {c: np.asarray(v)[perm_r].copy() for c, v in tb.items()}
+            tb_arg["pressure"] = tb_arg["pressure"].astype([np.uint32, np.uint64, np.int64][(k // 6) % 3])
+        else:
+            tb_arg = tb
+        arg = pd.DataFrame(tb_arg) if container == 0 else dict(tb_arg)
         if container == 2:
             for v in arg.values():
                 v.setflags(write=False)
         snap = snapshot(arg)
-        inp = dict(table_kind=kind, rows=len(p), p_i=p_i, user_alpha=bool(user_alpha), full_columns_too=bool(both), simple=bool(simple), carries_stale_m_scaled_column=bool(stale), carries_unrelated_columns_with_blanks=bool(sparse),
+        inp = dict(table_kind=kind, rows=len(p), p_i=p_i, user_alpha=bool(user_alpha), full_columns_too=bool(both), simple=bool(simple), row_order=rows_how, carries_stale_m_scaled_column=bool(stale), carries_unrelated_columns_with_blanks=bool(sparse),
                    container=["DataFrame", "dict", "dict of read-only arrays"][int(container)],
                    table={c: [None if x != x else float(x) for x in v] for c, v in tb.items()})
         cls = FlowPropertiesSimple if (simple and not user_alpha) else FlowProperties
@@ -103,14 +115,15 @@ def run(ctx):
             bad("an initial pressure outside the table is not rejected with ValueError (or an inside one is rejected)", inp, impl.get("error", "no error"))
             continue
         if "error" not in impl:
-            ms = np.asarray(fp.pvt_props["m-scaled"], float)
+            order_r = np.argsort(np.asarray(fp.pvt_props["pressure"], float), kind="stable")      # rows by increasing pressure
+            ms = np.asarray(fp.pvt_props["m-scaled"], float)[order_r]
             m_i = float(fp.m_i)
             pq = np.sort(rng.uniform(p[0], p[-1], 12))
             ms_q = np.asarray(fp.m_scaled_func(pq), float)
             qs = np.array(QUERIES + [float(x) for x in ms[:: max(1, len(ms) // 5)]] + [float(x) for x in (ms[:-1] + ms[1:])[:4] / 2])
             aq = np.asarray(fp.alpha(qs), float)
             impl.update(m_i=m_i, ms=ms, alpha_q=aq, ms_q=ms_q, pq=pq)
-            alpha_tab = np.asarray(fp.pvt_props["alpha"], float)
+            alpha_tab = np.asarray(fp.pvt_props["alpha"], float)[order_r]
             if np.any(np.diff(ms_q) <= 0) or np.any(np.diff(ms) <= 0):
                 bad("scaled pseudopressure is not strictly increasing in pressure", inp, [float(x) for x in ms_q[:5]])
             if not dom.relclose(float(fp.m_scaled_func(p_i)), m_i, 1e-13):
@@ -147,6 +160,39 @@ def run(ctx):
                 bad("rescale_pseudopressure modified the caller's table", dict(p_frac=pf, p_i=pi2), "table differs")
             if abs(float(L(pf))) > 1e-12 or abs(float(L(pi2)) - 1) > 1e-12:
                 bad("rescaling does not map frac-face pressure to 0 and initial pressure to 1", dict(p_frac=pf, p_i=pi2, rows=len(p)), dict(at_frac=float(L(pf)), at_init=float(L(pi2))))
+    # ---------------- user-supplied diffusivity on a table whose pseudopressure starts at 0 (every table built by the library does),
+    # initial pressure inside the FIRST pressure interval: known finding K5 (m_i NaN); anything else that goes wrong there is reported
+    k5 = [e for e in core.known_findings(ID) if e["status"] == "known" and e.get("key") == "K5-user-alpha-first-interval"]
+    k5_hits = 0
+    for k in range(4 if ctx.quick else 30):
+        npts = int(rng.integers(4, 12))
+        pk = np.cumsum(rng.uniform(5, 500, npts))
+        mk = np.concatenate([[0.0], np.cumsum(rng.uniform(0.5, 50, npts - 1))])
+        ak = rng.uniform(0.5, 5, npts)
+        for where, p_i5 in (("first interval", float(rng.uniform(pk[0] + 1e-6 * (pk[1] - pk[0]), pk[1] - 1e-6 * (pk[1] - pk[0])))), ("second interval", float(rng.uniform(pk[1], pk[2])))):
+            ev += 1
+            inp5 = dict(pressure=[float(x) for x in pk], pseudopressure=[float(x) for x in mk], alpha=[float(x) for x in ak], p_i=p_i5, p_i_in=where)
+            with warnings.catch_warnings():
+                warnings.simplefilter("ignore")
+                try:
+                    fp5 = FlowProperties({"pressure": pk.copy(), "pseudopressure": mk.copy(), "alpha": ak.copy()}, p_i5)
+                    mi5, ms5 = float(fp5.m_i), np.asarray(fp5.pvt_props["m-scaled"], float)
+                except Exception as e:  # noqa: BLE001
+                    bad("constructing the wrapper with user-supplied diffusivity fails for an initial pressure inside the table", inp5, repr(e)[:160])
+                    continue
+            fine = math.isfinite(mi5) and np.all(np.isfinite(ms5)) and np.all(np.diff(ms5) > 0) and 1 - 1e-12 <= mi5
+            if where == "first interval" and not fine and k5 and math.isnan(mi5) and math.isnan(ms5[0]) and np.all(np.isinf(ms5[1:])):
+                k5_hits += 1
+            elif not fine:
+                bad("with user-supplied diffusivity the scaled pseudopressure is not finite / increasing / at least 1 at the initial pressure", inp5, dict(m_i=mi5, m_scaled_head=[float(x) for x in ms5[:3]]))
+    if k5:
+        w = k5[0]["witness"]
+        with warnings.catch_warnings():
+            warnings.simplefilter("ignore")
+            fpw = FlowProperties({"pressure": np.array(w["pressure"]), "pseudopressure": np.array(w["pseudopressure"]), "alpha": np.array(w["alpha"])}, w["p_i"])
+        if math.isnan(float(fpw.m_i)):
+            ctx.known_printed.append(k5[0]["line"])
+            ctx.notes.append(f"known finding K5 reproduced on its witness; {k5_hits} sampled constructions showed it")
     # ---------------- missing columns: all subsets of the six columns, both classes (exhaustive)
     base = rescorr.synth_table("ideal", 6)
     base["alpha"] = 1 / (base["compressibility"] * base["viscosity"])
